@@ -22,6 +22,29 @@ CHECKS = {
              "recorded trace must be accepted; monitors c01_ok / c01_deadline_ok and probe-verdict / leak / served-by checks.",
         note="No axioms. Restart is outside this acceptor; the timeout side is an acceptor rule and a monitor (timing model: C17); traces recorded with GOMAXPROCS(1), no async preemption.",
         technique="Coq proof (state and history invariants over an event-trace acceptor, simulation to the monitor) + kernel-evaluated trace acceptance", ref="§7 C01"),
+    "C02": dict(
+        text="Theorems over every event trace accepted by model/M5full.v (props/C02.v): complete classification of every response by the request's path "
+             "(404 only without a route; 503 only from a stopped gate, an empty rotation or a claim refused by a draining target; 504 only from the gate "
+             "timer, a drain cut-off or the target; 502 only from a transport fault or the target); slots only hold balancers whose wait succeeded; a clean "
+             "(waited, unmarked, non-empty) balancer always yields a target and never refuses; hence a request of a service that is not paused/stopped whose "
+             "balancer is clean at its claim and whose target answers is answered by that target with its status (c02_no_proxy_error_when_clean); the "
+             "routing/claim race is refuted by an accepted witness (c02_refuted_race) and the property proved outside it (c02_holds_outside_race). "
+             "Correspondence: random and hand-forced interleavings of requests with successive redeploys (yields at every request and deploy step) on the "
+             "real code under the virtual clock; every recorded trace must be accepted; monitor corr/C02corr.c02_check on the trace alone.",
+        note="No axioms. Recorded finding C02-D2 (a request routed before the table swap is refused by the draining replaced target: 503). Atomic lock regions assumed "
+             "(GOMAXPROCS(1), no async preemption; data-race freedom is C18's concern). Restart and upgraded connections are outside this acceptor.",
+        technique="Coq proof (state and history invariants over an event-trace acceptor) + kernel-evaluated trace acceptance + trace monitor with known-finding pattern", ref="§7 C02"),
+    "C03": dict(
+        text="Theorems over every accepted trace of model/M5full.v (props/C03.v): a claim is accepted only on a target that is not draining; a drain's snapshot "
+             "is the in-flight set; when a Drain call ends every snapshot request has ended or been cut off; a request is cut off only by a drain that had it "
+             "in its snapshot, after that drain's deadline (mark + timeout); cut-off requests are answered 504; early return of a second Drain and the "
+             "probe-flips-draining behaviour stated honestly (D11, D12). The command-level statement (when deploy/pause/stop returns: nothing in flight un-cut on "
+             "the drained targets, nothing claimed on them afterwards) is the monitor corr/C03corr.c03_check, evaluated on every recorded trace. Correspondence: "
+             "in-flight sets finishing early / at the deadline +-1 ns / never, drain timeouts 0..3 s, late and held requests forced through yields.",
+        note="No axioms. Recorded finding C03-D2D3 (requests already routed / past the gate reach replaced or paused targets after the command returned). That a command waits for "
+             "all its Drain calls is sync.WaitGroup (Go), checked by the monitor, not proved. Overlapping commands on one service are outside the quantifier (monitor excludes them). "
+             "'Cut off' = context cancelled; connection teardown timing not modelled; no upgraded connections in the harness.",
+        technique="Coq proof (invariants over an event-trace acceptor) + kernel-evaluated trace acceptance + command-level trace monitor with known-finding pattern", ref="§7 C03"),
     "C04": dict(
         text="Theorems over all tables, hosts and paths on model/ServiceMap.v (props/C04.v: declarative route_spec incl. uniqueness, "
              "independence of sort/tie/map order and of table order, history-freedom over all command histories incl. restarts, port "
@@ -41,6 +64,17 @@ CHECKS = {
              "request matrix before and after every failed command.",
         note="No axioms. The repaired defect D4 (probe loops left running after a host conflict) is kept as a refuted lemma on the pinned variant.",
         technique="Coq proof (case analysis of exec phases under a reachability invariant) + kernel-evaluated correspondence", ref="§7 C06"),
+    "C07": dict(
+        text="Theorems over all traces accepted by the pause-gate view model/M5gate.v and the routing/drain view model/M5path.v (props/C07.v): every parked "
+             "request has exactly one outcome, decided by the close of its generation, the state re-read after the wake, or its own timer at arrival + the "
+             "max-pause in force at arrival; it is neither forwarded nor answered in between; a repeated pause keeps the generation; a redeploy shares and "
+             "preserves the gate; the health-check shortcut holds on model/Seq.v; 'pause never refuses' and 'resume uses the current targets' are refuted by "
+             "real witnesses and proved outside the D3 / D2 / overlap windows. Correspondence: forced and random schedules of arrivals with pause / resume / "
+             "stop / repeated pause / redeploy / timer expiries on the real router under the virtual clock; every trace accepted by both views and judged by "
+             "corr/C07corr.c07_check in the kernel.",
+        note="No axioms. Recorded findings D3, D2, D3-overlap (known_findings/C07.json; proposed repairs in fixes/, not applied). The accepted => monitor link is not proved "
+             "(monitor per service name, views per controller). A failing scenario is re-run alone before it is reported.",
+        technique="Coq proof (invariants over two event-trace acceptors) + kernel-evaluated trace acceptance + trace monitor with known-finding patterns", ref="§7 C07"),
     "C08": dict(
         text="Theorems over all byte strings (html/template text escaper = byte-wise map, inertness, round trip, body = function of the escaped "
              "message) and over all states / command histories of model/Seq.v (stopped => 503-with-message or 200 on GET health, never forwarded; "
